@@ -157,11 +157,25 @@ def switch_programs(draw, big=False):
     body = []
     WRAP = {"do": ("do {", "} while (0);"), "for": ("for (;;) {", "break; }"), "while": ("while (1) {", "break; }"), "if": ("if (x == x) {", "}"), "block": ("{ {", "} }"),
             "dowhile-if": ("do { if (1) {", "} } while (0);")}
+    def keytext(k):
+        # a case constant is converted to the promoted type of the controlling expression (6.8.4.2p5): it may be written in any
+        # integer type that holds the value - narrower, wider or of the other signedness than the switch
+        if big or d(_int(0, 3)):
+            return cm.literal(k, P)
+        cands = [t_ for t_ in (cm.INT, cm.UINT, cm.LONG, cm.ULONG, cm.LLONG, cm.ULLONG, cm.SHORT, cm.UCHAR) if t_.has(k)]
+        t_ = d(_pick(cands))
+        if k >= 0 and d(_int(0, 2)) == 0:
+            suf = {4: "", 5: "l", 6: "ll"}.get(t_.rank, "")
+            if t_.rank >= cm.INT.rank and not (t_.signed and k > t_.max):
+                hx = "0x%x%s%s" % (k, "" if t_.signed else "u", suf)
+                # a hexadecimal constant without u takes the first type of its list that holds the value, signed or not
+                return hx
+        return cm.literal(k, t_)
     for a in arms:
         if a["wrap"]:
             body.append(ind + WRAP[a["wrap"]][0])
         for l in a["labels"]:
-            body.append("\tdefault:" if l == "default" else "\tcase %s:" % cm.literal(l, P))
+            body.append("\tdefault:" if l == "default" else "\tcase %s:" % keytext(l))
         line = ind + "r += %d;" % a["add"]
         if a["wrap"]:
             line += " " + WRAP[a["wrap"]][1]
